@@ -57,7 +57,7 @@ func (c10) Cases(tier string) int {
 	if tier == "thorough" {
 		return 8000
 	}
-	return 480
+	return 1600
 }
 func (c10) RaceCases(tier string) int {
 	if tier == "thorough" {
@@ -265,19 +265,24 @@ var c10IndexForms = []struct {
 	expr    string
 	mode    string // row: one [d,f,n] row per document | rows: a list of rows per document | derived: row taken from a derived root value
 	needMap bool
+	needSeq bool // non-empty sequence documents
 }{
-	{"[document_index, file_index, filename]", "row", false},
-	{"[di, fi, file_name]", "row", false},
-	{"[documentIndex, fileIndex, fileName]", "row", false},
-	{"[document_index, file_index, filename]", "row", false},
-	{"[.. | [di, fi, filename]] | unique", "rows", false},
-	{".a | [document_index, file_index, filename]", "row", true},
-	{"(.a = 5) | [di, fi, filename]", "row", true},
-	{"select(true) | [di, fi, filename]", "row", false},
-	{"[.] | [document_index, file_index, filename]", "derived", false},
-	{"tag | [di, fi, filename]", "derived", false},
-	{"select(true) | [document_index, file_index, file_name]", "row", false},
-	{". as $d | [$d | di, $d | fi, $d | filename]", "row", false},
+	{"[document_index, file_index, filename]", "row", false, false},
+	{"[di, fi, file_name]", "row", false, false},
+	{"[documentIndex, fileIndex, fileName]", "row", false, false},
+	{"[document_index, file_index, filename]", "row", false, false},
+	{"[.. | [di, fi, filename]] | unique", "rows", false, false},
+	{".a | [document_index, file_index, filename]", "row", true, false},
+	{"(.a = 5) | [di, fi, filename]", "row", true, false},
+	{"select(true) | [di, fi, filename]", "row", false, false},
+	{"[.] | [document_index, file_index, filename]", "derived", false, false},
+	{"tag | [di, fi, filename]", "derived", false, false},
+	{"select(true) | [document_index, file_index, file_name]", "row", false, false},
+	{". as $d | [$d | di, $d | fi, $d | filename]", "row", false, false},
+	// the index keys of sequence elements are nodes of their document too
+	{"[.[] | key | [di, fi, filename]] | unique", "rows", false, true},
+	{".[0] | key | [document_index, file_index, filename]", "row", false, true},
+	{".[-1] | key | [di, fi, file_name]", "row", false, true},
 }
 
 func c10GenIndices(r *rand.Rand) c10Case {
@@ -289,10 +294,17 @@ func c10GenIndices(r *rand.Rand) c10Case {
 	if form.needMap {
 		shape = "puremap"
 	}
+	if form.needSeq {
+		shape = "nonemptyseq"
+	}
 	nf := 1 + r.IntN(4)
 	for i := 0; i < nf; i++ {
 		f := c10File{Name: c10FileName(r, i)}
-		switch k := r.IntN(14); {
+		k := r.IntN(14)
+		if form.needSeq && k <= 1 {
+			k = 5 // a comment-only file is a null document: `.[0]` would not be a sequence element
+		}
+		switch {
 		case k == 0:
 			f.Feat = []string{"empty-file"}
 		case k == 1:
@@ -304,6 +316,12 @@ func c10GenIndices(r *rand.Rand) c10Case {
 				var t string
 				if shape == "puremap" {
 					t = c10MapDoc(r, 1).JSON()
+				} else if shape == "nonemptyseq" {
+					v := c10SeqDoc(r, 1)
+					for len(v.A) == 0 {
+						v = c10SeqDoc(r, 1)
+					}
+					t = v.JSON()
 				} else {
 					t, _ = c10Doc(r, []string{"map", "seq", "any"}[r.IntN(3)])
 				}
@@ -311,7 +329,7 @@ func c10GenIndices(r *rand.Rand) c10Case {
 				f.Kinds = append(f.Kinds, "json")
 			}
 			f.Text = strings.Join(f.Docs, "---\n")
-			if k == 2 && form.mode == "row" && !form.needMap {
+			if k == 2 && form.mode == "row" && !form.needMap && !form.needSeq {
 				// the file starts with explicit empty / comment-only documents
 				lead := 1 + r.IntN(2)
 				pre := ""
@@ -352,7 +370,7 @@ func c10GenIndices(r *rand.Rand) c10Case {
 			c.Files = append(c.Files, src)
 		}
 	}
-	if r.IntN(3) == 0 && form.mode == "row" && !form.needMap {
+	if r.IntN(3) == 0 && form.mode == "row" && !form.needMap && !form.needSeq {
 		// eval-all reads leading content only for the first file: whether a LATER comment-only file is a
 		// document differs between eval (1, yq's convention) and eval-all (0, YAML's): not booked either way
 		ok := true
